@@ -891,6 +891,38 @@ impl Tamper {
                 }
             }
         }
+        // one run in about forty carries a large package as well (26-75 orders, 4-15 kB): block,
+        // buffer and chunk sizes of a digest or a reader lie far above the ordinary packages
+        let mut r = Rng::stream(seed, 6);
+        if r.chance(1, 40) {
+            let n = 26 + r.below(50);
+            let mut orders: Vec<OrderSpec> = vec![];
+            let mut room: u64 = u64::MAX / 2;
+            for i in 0..n {
+                let mut o = crate::wire::any_order(&mut r);
+                o.id.v = (o.id.v & !0xfff) | i as u128;
+                if orders.iter().any(|x| x.id == o.id) {
+                    continue;
+                }
+                o.vis = o.vis.min(room / 2);
+                room -= o.vis;
+                o.hid = o.hid.min(room / 2);
+                room -= o.hid;
+                orders.push(o);
+            }
+            let spec = SnapSpec {
+                price: 1 + r.below(1 << 40),
+                vis: 0,
+                hid: 0,
+                count: 0,
+                orders,
+            };
+            if let Ok(p) = PriceLevelSnapshotPackage::new(spec.to_lib()) {
+                if let Ok(j) = p.to_json() {
+                    out.push(j);
+                }
+            }
+        }
         out
     }
 
@@ -1183,7 +1215,7 @@ impl Check for Tamper {
     fn run_seed(&self, seed: u64) -> RunOut {
         let mut out = RunOut::default();
         for p in self.packages(seed) {
-            if p.len() > 2600 {
+            if p.len() > 2600 && !(p.len() > 4000 && p.len() < 40_000) {
                 continue;
             }
             Tamper::merge(&mut out, self.run_package(&p, seed, None));
